@@ -286,14 +286,20 @@ func startOrigin(p *pki, spec srvSpec) (*origin, error) {
 			return nil, err
 		}
 		o.port = ln.Addr().(*net.TCPAddr).Port
+		// the UDP port of the same number is always taken by the origin: by its QUIC listener, or - no HTTP/3 -
+		// by a socket nobody reads, so that no other process on the machine (other harnesses run QUIC servers on
+		// random ports) can answer a QUIC dial meant for this origin (seen once in 31 000 thorough cells: a
+		// forced-HTTP/3 request to an origin without QUIC listener was served by a foreign server)
 		var pc net.PacketConn
-		if spec.H3 {
-			pc, err = net.ListenPacket("udp", fmt.Sprintf("127.0.0.1:%d", o.port))
-			if err != nil { // UDP port taken: try another TCP port
-				ln.Close()
-				lastErr = err
-				continue
-			}
+		pc, err = net.ListenPacket("udp", fmt.Sprintf("127.0.0.1:%d", o.port))
+		if err != nil { // UDP port taken: try another TCP port
+			ln.Close()
+			lastErr = err
+			continue
+		}
+		if !spec.H3 {
+			silent := pc
+			o.closes = append(o.closes, func() { silent.Close() })
 		}
 		base := func(quic bool) *tls.Config {
 			c := &tls.Config{Certificates: []tls.Certificate{p.serverCert}}
